@@ -350,3 +350,195 @@ Proof.
   - pose proof (populate_lower_spec l size align atype HI Ha ltac:(lia)) as H.
     destruct (populate_lower l size align atype); auto. split; [exact H|lia].
 Qed.
+
+(* ------------------------------------------------------------------ Alloc *)
+
+Lemma upper_limit_le l : LInv l -> upper_limit l <= l_size l.
+Proof.
+  intros HI. unfold upper_limit. destruct (l_mode l) eqn:Hm; try lia.
+  destruct (double_facts _ HI Hm) as (sv0 & s & Hsv & _ & _ & Hsl). rewrite Hsv, last_z_snoc. exact Hsl.
+Qed.
+
+Lemma lives_snoc_live v x : is_free x = false -> lives (v ++ [x]) = lives v ++ [x].
+Proof. intros H. rewrite lives_app, lives_cons_live by assumption. reflexivity. Qed.
+
+Lemma count_free_snoc_live v x : is_free x = false -> count_free (v ++ [x]) = count_free v.
+Proof. intros H. rewrite count_free_app, count_free_cons, H, count_free_nil. lia. Qed.
+
+Lemma chain_end_suffix pre win : pos_sizes pre -> chain_from 0 pre -> chain_end 0 win <= chain_end 0 (pre ++ win).
+Proof.
+  intros Hp Hc. rewrite chain_end_app. apply chain_end_mono. apply chain_end_ge; assumption.
+Qed.
+
+(* the address order after a live item x has been put between the window and the upper stack *)
+Lemma order_insert pre win sv m sf nm ns size g x :
+  W pre win sv m sf nm ns size g -> m <> MRing ->
+  1 <= s_size x -> end_of (pre ++ win) <= s_off x -> s_off x + s_size x <= size ->
+  (forall sv0 s, sv = sv0 ++ [s] -> m = MDouble -> s_off x + s_size x <= s_off s) ->
+  chain 0 (win ++ x :: rev sv) size.
+Proof.
+  intros HW Hm Hsx Hlo Hhi Hlim. destruct HW.
+  pose proof (item_ok_pos _ w_ok1) as Hp. apply pos_sizes_app in Hp. destruct Hp as (Hpp & Hpw).
+  destruct w_first as (Hcf & _). pose proof Hcf as Hcf'. apply chain_from_app in Hcf'. destruct Hcf' as (Hcp & _).
+  pose proof (chain_end_suffix pre win Hpp Hcp) as Hsuf. rewrite (end_of_chain0 (pre ++ win)) in Hsuf.
+  destruct m; [|congruence|].
+  - rewrite w_mode in * by reflexivity. cbn [order rev app] in *.
+    destruct w_order as (Hcw & _).
+    apply chain_app. split; [exact Hcw|]. apply chain_cons. split; [lia|]. apply chain_nil. lia.
+  - cbn [order] in *. apply chain_app in w_order. destruct w_order as (Hcw & Hcs).
+    apply chain_app. split; [exact Hcw|]. apply chain_cons. split; [lia|].
+    destruct (list_snoc_cases sv) as [->|(sv0 & s & ->)].
+    + cbn. apply chain_nil. lia.
+    + specialize (Hlim _ _ eq_refl eq_refl). rewrite rev_app_distr in *. cbn [rev app] in *.
+      apply chain_cons in Hcs. apply chain_cons. split; [lia|tauto].
+Qed.
+
+Lemma item_live_not_free x : s_type x <> 0 -> is_free x = false.
+Proof. unfold is_free. lia. Qed.
+
+Lemma W_snoc_first pre win sv m sf nm ns size g x :
+  W pre win sv m sf nm ns size g -> m <> MRing ->
+  item_ok x -> is_free x = false -> end_of (pre ++ win) <= s_off x -> s_off x + s_size x <= size ->
+  (forall sv0 s, sv = sv0 ++ [s] -> m = MDouble -> s_off x + s_size x <= s_off s) ->
+  W pre (win ++ [x]) sv m (sf - s_size x) nm ns size g.
+Proof.
+  intros HW Hm Hok Hlive Hlo Hhi Hlim.
+  pose proof (order_insert _ _ _ _ _ _ _ _ _ x HW Hm ltac:(apply Hok) Hlo Hhi Hlim) as Hord.
+  destruct HW. constructor; try assumption.
+  - rewrite count_free_snoc_live; assumption.
+  - rewrite app_assoc. apply Forall_app. split; [assumption|constructor; [assumption|constructor]].
+  - rewrite app_assoc. destruct w_first as (Hcf & Hce). apply chain_app. split; [exact Hcf|].
+    rewrite end_of_chain0. apply chain_cons. split; [lia|]. apply chain_nil. lia.
+  - destruct m; [|congruence|].
+    + rewrite w_mode in * by reflexivity. cbn [order rev app] in *. exact Hord.
+    + cbn [order]. rewrite <- app_assoc. exact Hord.
+  - rewrite lives_snoc_live by assumption. rewrite !sum_sizes_app in *. cbn [sum_sizes]. lia.
+Qed.
+
+Lemma L_snoc_first pre win sv m x :
+  L pre win sv m -> is_free x = false -> L pre (win ++ [x]) sv m.
+Proof.
+  intros HL Hlive. destruct HL. constructor; try assumption.
+  - intros H. destruct win; discriminate.
+  - intros s r H. destruct win as [|w ws]; cbn in H; injection H as <- _; [assumption|]. eapply l_head. reflexivity.
+  - intros v s H. apply app_inj_tail in H. destruct H as (_ & <-). assumption.
+  - intros _ H. destruct win; discriminate.
+Qed.
+
+Lemma W_snoc_upper pre win sv m sf nm ns size g x :
+  W pre win sv m sf nm ns size g -> m <> MRing ->
+  item_ok x -> is_free x = false -> end_of (pre ++ win) <= s_off x -> s_off x + s_size x <= size ->
+  (forall sv0 s, sv = sv0 ++ [s] -> m = MDouble -> s_off x + s_size x <= s_off s) ->
+  W pre win (sv ++ [x]) MDouble (sf - s_size x) nm ns size g.
+Proof.
+  intros HW Hm Hok Hlive Hlo Hhi Hlim.
+  pose proof (order_insert _ _ _ _ _ _ _ _ _ x HW Hm ltac:(apply Hok) Hlo Hhi Hlim) as Hord.
+  destruct HW. constructor; try assumption.
+  - rewrite count_free_snoc_live; assumption.
+  - apply Forall_app. split; [assumption|constructor; [assumption|constructor]].
+  - cbn [order]. rewrite rev_app_distr. exact Hord.
+  - discriminate.
+  - rewrite lives_snoc_live by assumption. rewrite !sum_sizes_app in *. cbn [sum_sizes]. lia.
+Qed.
+
+Lemma L_snoc_second pre win sv m m' x :
+  L pre win sv m -> is_free x = false -> (m' = MRing -> win <> []) -> L pre win (sv ++ [x]) m'.
+Proof.
+  intros HL Hlive Hr. destruct HL. constructor; try assumption.
+  - intros H. destruct sv; discriminate.
+  - intros v s H. apply app_inj_tail in H. destruct H as (_ & <-). assumption.
+Qed.
+
+Lemma W_snoc_ring pre win sv m sf nm ns size g x w ws :
+  W pre win sv m sf nm ns size g -> m <> MDouble -> win = w :: ws ->
+  item_ok x -> is_free x = false -> end_of sv <= s_off x -> s_off x + s_size x <= s_off w ->
+  W pre win (sv ++ [x]) MRing (sf - s_size x) nm ns size g.
+Proof.
+  intros HW Hm Hwin Hok Hlive Hlo Hhi. destruct HW. constructor; try assumption.
+  - rewrite count_free_snoc_live; assumption.
+  - apply Forall_app. split; [assumption|constructor; [assumption|constructor]].
+  - assert (Ho : order m win sv = sv ++ win) by (unfold order; destruct m; try reflexivity; congruence).
+    rewrite Ho in w_order. cbn [order]. rewrite <- app_assoc. subst win.
+    apply chain_app in w_order. destruct w_order as (Hcs & Hcw). apply chain_cons in Hcw.
+    apply chain_app. split; [exact Hcs|]. rewrite end_of_chain0. cbn [app].
+    apply chain_cons. split; [lia|]. apply chain_cons. split; [lia|tauto].
+  - discriminate.
+  - rewrite lives_snoc_live by assumption. rewrite !sum_sizes_app in *. cbn [sum_sizes]. lia.
+Qed.
+
+Lemma live_of_split l pre win :
+  first l = pre ++ win -> zlen pre = l_null_begin l -> live l = lives win ++ lives (second l).
+Proof. intros Hf Hn. unfold live. destruct (split_first _ _ _ Hf Hn) as (_ & ->). reflexivity. Qed.
+
+Definition new_item (off size : Z) (tag : option Z) (atype align : Z) : sub :=
+  mkSub off size tag atype size align.
+
+Theorem alloc_spec l size align r atype tag :
+  LInv l -> req_ok l size align r -> atype <> 0 -> 0 < align ->
+  exists l', alloc l r atype tag size align = AOk l' /\ LInv l' /\
+             l_size l' = l_size l /\ l_gran l' = l_gran l /\ l_h l' = l_h l /\
+             exists l1 l2, live l = l1 ++ l2 /\
+                           live l' = l1 ++ new_item (rq_offset r) size tag atype align :: l2.
+Proof.
+  intros HI (Hrs & Hsz & Hmod & Hty) Hat Hal. pose proof HI as (HWI & HL).
+  destruct (WInv_elim _ HWI) as (Hf & Hn & HW).
+  set (x := new_item (rq_offset r) size tag atype align).
+  assert (Hxok : item_ok x) by (unfold item_ok, x, new_item; cbn; repeat split; lia).
+  assert (Hxl : is_free x = false) by (apply item_live_not_free; exact Hat).
+  unfold alloc. fold (rq_offset r). rewrite Hrs. fold (new_item (rq_offset r) size tag atype align). fold x.
+  pose proof (upper_limit_le _ HI) as Hul.
+  assert (Hlim : l_mode l <> MRing -> rq_offset r + size <= upper_limit l ->
+                 forall sv0 s, second l = sv0 ++ [s] -> l_mode l = MDouble -> s_off x + s_size x <= s_off s).
+  { intros _ Hle sv0 s Hsv Hmd. unfold upper_limit in Hle. rewrite Hmd, Hsv, last_z_snoc in Hle. exact Hle. }
+  destruct (rq_type r); [contradiction| | |].
+  - (* upper address *)
+    destruct Hty as (Hm & Hlo & Hhi). specialize (Hlim Hm Hhi).
+    unfold alloc_upper. destruct (mode_eqb (l_mode l) MRing) eqn:Hmr; [destruct (l_mode l); try discriminate; congruence|].
+    eexists. split; [reflexivity|]. rewrite Hf in Hlo.
+    pose proof (W_snoc_upper _ _ _ _ _ _ _ _ _ x HW Hm Hxok Hxl Hlo ltac:(cbn; lia) Hlim) as HW'.
+    pose proof (L_snoc_second _ _ _ _ MDouble x HL Hxl ltac:(discriminate)) as HL'.
+    split; [|lsimp; repeat split; try reflexivity].
+    + apply (LInv_intro _ (prefix l) (window l)); lsimp; auto.
+    + exists (live l), []. rewrite app_nil_r. split; [reflexivity|].
+      unfold live at 1. unfold window. lsimp. fold (window l). rewrite lives_snoc_live by assumption.
+      unfold live. rewrite app_assoc. reflexivity.
+  - (* end of first *)
+    destruct Hty as (Hm & Hlo & Hhi). specialize (Hlim Hm Hhi).
+    unfold alloc_end_of_first.
+    assert (Hov : match last_z (first l) with Some s => s_off x <? s_off s + s_size s | None => false end = false).
+    { unfold end_of in Hlo. destruct (last_z (first l)); [|reflexivity]. cbn. lia. }
+    rewrite Hov. destruct (s_off x + s_size x >? l_size l) eqn:Hbig; [cbn in Hbig; lia|].
+    eexists. split; [reflexivity|]. rewrite Hf in Hlo.
+    pose proof (W_snoc_first _ _ _ _ _ _ _ _ _ x HW Hm Hxok Hxl Hlo ltac:(cbn; lia) Hlim) as HW'.
+    pose proof (L_snoc_first _ _ _ _ x HL Hxl) as HL'.
+    assert (Hf' : first l ++ [x] = prefix l ++ window l ++ [x]) by (rewrite Hf at 1; rewrite app_assoc; reflexivity).
+    split; [|lsimp; repeat split; try reflexivity].
+    + apply (LInv_intro _ (prefix l) (window l ++ [x])); lsimp; auto.
+    + exists (lives (window l)), (lives (second l)). split; [reflexivity|].
+      rewrite (live_of_split _ (prefix l) (window l ++ [x])) by (lsimp; auto).
+      lsimp. rewrite lives_snoc_live by assumption. rewrite <- app_assoc. reflexivity.
+  - (* end of second *)
+    destruct Hty as (Hm & Hne & Hlo & Hhi).
+    destruct (window_facts _ HI Hne) as (w & ws & Hw & Hnth & _ & _ & _ & Hnb).
+    specialize (Hhi _ Hnth).
+    unfold alloc_end_of_second. destruct (zlen (first l) =? 0) eqn:Hz; [lia|]. rewrite Hnth.
+    destruct (s_off x + s_size x >? s_off w) eqn:Hbig; [cbn in Hbig; lia|].
+    pose proof (W_snoc_ring _ _ _ _ _ _ _ _ _ x w ws HW Hm Hw Hxok Hxl Hlo ltac:(cbn; lia)) as HW'.
+    pose proof (L_snoc_second _ _ _ _ MRing x HL Hxl ltac:(intros _; rewrite Hw; discriminate)) as HL'.
+    assert (Hlv : lives (window l) ++ lives (second l ++ [x]) = live l ++ [x]).
+    { rewrite lives_snoc_live by assumption. unfold live. rewrite app_assoc. reflexivity. }
+    destruct (l_mode l) eqn:Hmm; [| |congruence].
+    + assert (Hsv : second l = []) by (destruct HW; auto). rewrite Hsv. cbn [zlen length Z.of_nat Z.gtb Z.compare].
+      eexists. split; [reflexivity|]. rewrite Hsv in *.
+      split; [|lsimp; repeat split; try reflexivity].
+      * apply (LInv_intro _ (prefix l) (window l)); lsimp; auto.
+      * exists (live l), []. rewrite app_nil_r. split; [reflexivity|].
+        unfold live at 1. unfold window. lsimp. fold (window l). rewrite Hlv. reflexivity.
+    + destruct (zlen (second l) =? 0) eqn:Hz2.
+      { apply Z.eqb_eq, zlen_zero in Hz2. destruct HL. apply l_sv in Hz2. discriminate. }
+      eexists. split; [reflexivity|].
+      split; [|lsimp; repeat split; try reflexivity].
+      * apply (LInv_intro _ (prefix l) (window l)); lsimp; auto. rewrite Hmm. exact HW'. rewrite Hmm. exact HL'.
+      * exists (live l), []. rewrite app_nil_r. split; [reflexivity|].
+        unfold live at 1. unfold window. lsimp. fold (window l). rewrite Hlv. reflexivity.
+Qed.
